@@ -13,7 +13,9 @@ import (
 	"errors"
 	"fmt"
 	"math/big"
+	"runtime"
 	"sort"
+	"strings"
 	"sync"
 	"testing"
 	"testing/synctest"
@@ -132,6 +134,9 @@ func (h *simHost) Close() error { return nil }
 // Connect is only reached for peers marked notConnected: the dial parks on a
 // gate and fails when released (a dial that succeeds is a connected peer).
 func (h *simHost) Connect(ctx context.Context, pi peer.AddrInfo) error {
+	if h.net.Connectedness(pi.ID) == network.Connected {
+		return nil
+	}
 	c := h.gate.park(ctx, "dial", pi.ID, nil)
 	if err := ctx.Err(); err != nil {
 		return err
@@ -172,6 +177,9 @@ type simCall struct {
 	// was the caller's context already done when the call was made?
 	deadAtPark bool
 	parkedAt   time.Time
+	// which part of the DHT made the call, read off the goroutine's stack:
+	// "query" (search phase of a lookup), "followup", "probe" (admission), "ping" (refresh), "other"
+	origin string
 }
 
 type simGate struct {
@@ -183,7 +191,7 @@ type simGate struct {
 
 func (g *simGate) park(ctx context.Context, kind string, p peer.ID, req *pb.Message) *simCall {
 	g.mu.Lock()
-	c := &simCall{seq: g.seq, kind: kind, p: p, req: req, ctx: ctx, gate: make(chan struct{}), deadAtPark: ctx.Err() != nil, parkedAt: time.Now()}
+	c := &simCall{seq: g.seq, kind: kind, p: p, req: req, ctx: ctx, gate: make(chan struct{}), deadAtPark: ctx.Err() != nil, parkedAt: time.Now(), origin: simOrigin()}
 	g.seq++
 	g.pending = append(g.pending, c)
 	g.log = append(g.log, c)
@@ -228,6 +236,23 @@ func (g *simGate) Log() []*simCall {
 	g.mu.Lock()
 	defer g.mu.Unlock()
 	return append([]*simCall(nil), g.log...)
+}
+
+// simOrigin classifies the calling goroutine by the functions on its stack.
+func simOrigin() string {
+	buf := make([]byte, 16384)
+	st := string(buf[:runtime.Stack(buf, false)])
+	switch {
+	case strings.Contains(st, "pingAndEvictPeers"):
+		return "ping"
+	case strings.Contains(st, ".peerFound."):
+		return "probe"
+	case strings.Contains(st, "(*query).queryPeer"):
+		return "query"
+	case strings.Contains(st, "runLookupWithFollowup"):
+		return "followup"
+	}
+	return "other"
 }
 
 // ---- gated message sender --------------------------------------------------------
